@@ -160,6 +160,8 @@ def text_literal_axioms():
         out.append(z3.Distinct(T.text_empty(), *[c for _, c in lits]) if len(lits) >= 1 else z3.BoolVal(True))
         for sv, c in lits:
             out.append(T.text_len()(c) == len(sv))
+    from . import ops
+    out.extend(ops.global_axioms())
     return out
 
 
@@ -420,8 +422,13 @@ class Normalizer:
 # source loading
 # ----------------------------------------------------------------------------------------------
 def resolve_key(key: str):
-    """'module:Qual.name' -> (real object, owner class or None)."""
+    """'module:Qual.name' -> (real object, owner class or None).
+    A name bound to a closure-based decorator wrapper (no __wrapped__) denotes the *decorated* function, found in
+    the wrapper's closure by its __qualname__; 'module:Qual.name@wrapper' denotes the wrapper itself."""
     import importlib
+    want_wrapper = key.endswith("@wrapper")
+    if want_wrapper:
+        key = key[:-len("@wrapper")]
     mod, _, qual = key.partition(":")
     m = importlib.import_module(mod)
     obj = m
@@ -429,6 +436,17 @@ def resolve_key(key: str):
     for part in qual.split("."):
         owner = obj if inspect.isclass(obj) else None
         obj = inspect.getattr_static(obj, part) if inspect.isclass(obj) else getattr(obj, part)
+    if not want_wrapper:
+        fn = obj.__func__ if isinstance(obj, (staticmethod, classmethod)) else obj
+        if inspect.isfunction(fn) and fn.__qualname__ != qual and fn.__closure__ and not hasattr(fn, "__wrapped__"):
+            for cell in fn.__closure__:
+                try:
+                    inner = cell.cell_contents
+                except ValueError:
+                    continue
+                if inspect.isfunction(inner) and inner.__qualname__ == qual:
+                    obj = inner
+                    break
     return obj, owner
 
 
